@@ -288,8 +288,6 @@ def run_job(job):
         for i, sources in enumerate(inputs_for(gname, spec, mn, G)):
             if i % nsh != sh:
                 continue
-            # thorough: full product.  quick: every input meets 1 (cell, stored subset) combination, rotating
-            # so that every (cell, subset) pair is met by many inputs (rotation offset = seed)
             # the full product (cells x subsets) per input is ~10^6 pipeline runs and out of reach: quick gives every input one
             # (cell, stored subset) combination, thorough six, rotating so that every pair is met by many inputs
             ncomb = 1 if tier == "quick" else 6
